@@ -32,6 +32,8 @@ def _write_replay(pid, cname, oname, payload):
     os.makedirs(d, exist_ok=True)
     safe = "".join(ch if ch.isalnum() or ch in "._-" else "_" for ch in (cname + "__" + oname))[:150]
     path = os.path.join(d, safe + ".json")
+    if isinstance(payload, dict):
+        payload.setdefault("property", pid)
     with open(path, "w") as f:
         json.dump(payload, f, indent=1, default=str)
     return path
